@@ -594,9 +594,9 @@ fn run_migrate(cx: &mut Ctx, thorough: bool) -> Result<(), String> {
                 let acc = acc && mk != MinterKind::Base;
                 let label = format!("status={:03b} cw2=({}, {})", bits, other.clone().unwrap_or_else(|| name.clone()), ver);
                 let senders: Vec<(&str, String)> = if thorough || ver == "2.4.0" || ver == cur {
-                    vec![("stranger", "stranger".to_string()), ("buyer", "buyer1".to_string()), ("governance-account", GOV.to_string()), ("wasm-admin-creator", admin.clone())]
+                    vec![("stranger", "stranger".to_string()), ("buyer", "buyer1".to_string()), ("governance-account", GOV.to_string()), ("creator-minter-admin", CREATOR.to_string()), ("payment-address", PAYADDR.to_string()), ("wasm-admin-payer", admin.clone())]
                 } else {
-                    vec![("stranger", "stranger".to_string()), ("wasm-admin-creator", admin.clone())]
+                    vec![("creator-minter-admin", CREATOR.to_string()), ("wasm-admin-payer", admin.clone())]
                 };
                 for (role, sender) in senders {
                     set_cw2(&mut w.app, &minter, other.as_deref().unwrap_or(&name), &ver);
@@ -735,7 +735,7 @@ mod airdrop {
     /// vending minter + plain whitelist whose admin list holds the airdrop contract + the
     /// airdrop contract (which instantiates its whitelist-immutable of eligible eth addresses)
     pub fn build() -> Result<Drop, String> {
-        let mw = setup_minter_with(MinterKind::Vending, |_, _| {})?;
+        let mw = setup_minter_c05(MinterKind::Vending, |_, _| {})?;
         let mut app = mw.app;
         for a in ACCOUNTS {
             chain::mint_coins(&mut app, a, 1_000_000_000_000, NATIVE);
@@ -754,11 +754,11 @@ mod airdrop {
             app.instantiate_contract(wl_code, Addr::unchecked("creator"), &msg, &[coin(fee, NATIVE)], "wl", None).map_err(|e| format!("{:#}", e))?
         };
         exec_json(&mut app, "creator", &mw.minter, &json!({"set_whitelist": {"whitelist": wl}}), &[]).map_err(|e| format!("set_whitelist: {}", e))?;
-        let imsg = json!({"admin": "creator", "claim_msg_plaintext": PLAINTEXT, "airdrop_amount": "30000000",
+        let imsg = json!({"admin": "airadmin", "claim_msg_plaintext": PLAINTEXT, "airdrop_amount": "30000000",
             "addresses": [eth_addr], "whitelist_code_id": imm_code, "minter_address": mw.minter, "per_address_limit": 1});
         let air = {
             use cw_multi_test::Executor;
-            app.instantiate_contract(air_code, Addr::unchecked("creator"), &imsg, &[coin(100_000_000, NATIVE)], "airdrop", None)
+            app.instantiate_contract(air_code, Addr::unchecked("airadmin"), &imsg, &[coin(100_000_000, NATIVE)], "airdrop", None)
                 .map_err(|e| format!("airdrop instantiate: {:#}", e))?
         };
         if air.as_str() != airdrop_addr {
@@ -772,6 +772,8 @@ mod airdrop {
             target: air.clone(),
             roles: vec![
                 ("stranger".to_string(), "stranger".to_string()),
+                ("airdrop-admin".to_string(), "airadmin".to_string()),
+                ("minter-payment-address".to_string(), PAYADDR.to_string()),
                 ("creator".to_string(), "creator".to_string()),
                 ("minter-contract".to_string(), mw.minter.to_string()),
                 ("airdrop-itself".to_string(), air.to_string()),
